@@ -413,6 +413,8 @@ def parse_record(rec):
 def oracle_case(case, line):
     """property oracle for one decoder case on the implementation's observation line.
     -> None or (what, finding_tag_or_None)"""
+    if "CANARY" in line:
+        return ("decoder wrote behind its %d-byte decode buffer (guard bytes after codeBufDecode changed)" % BUF, None)
     recs = [parse_record(r) for r in line.split(" ; ")] if line else []
     delivered = b""
     saw_E_inside, end = False, None
@@ -508,6 +510,21 @@ def func_lines(rng, tier):
     return ls
 
 
+def vh_bytes(seed, n):
+    """splitmix64 stream of harness/common/vh.h (vh_srand + vh_rand & 0xff)"""
+    M = (1 << 64) - 1
+    st = (seed * 0x9E3779B97F4A7C15 + 1) & M
+    out = bytearray()
+    for _ in range(n):
+        st = (st + 0x9E3779B97F4A7C15) & M
+        z = st
+        z = ((z ^ (z >> 30)) * 0xBF58476D1CE4E5B9) & M
+        z = ((z ^ (z >> 27)) * 0x94D049BB133111EB) & M
+        z ^= z >> 31
+        out.append(z & 0xff)
+    return bytes(out)
+
+
 KNOWN_SHA1 = {b"abc": "a9993e364706816aba3e25717850c26c9cd0d89d",
               b"": "da39a3ee5e6b4b0d3255bfef95601890afd80709"}
 
@@ -548,6 +565,8 @@ def oracle_func(op, ob):
             return "rfbWriteExact(%d) output is not a valid unmasked frame sequence: %s" % (n, ex)
         if len(data) != n:
             return "rfbWriteExact(%d): frames carry %d bytes" % (n, len(data))
+        if data != vh_bytes(int(t[3]), n):
+            return "rfbWriteExact(%d): frames do not carry the bytes written" % n
     elif t[0] == "hs":
         return oracle_hs(bytes.fromhex(t[1]), ob)
     return None
@@ -702,6 +721,35 @@ def e2e_script(rng):
                                    "stream_len": len(full)}
 
 
+LONE_CONTROL = "ws-lone-control-frame-timeout"
+
+
+def lone_control_script(kind):
+    """a session in which a control frame (or an empty data frame) is the last thing the client
+    sends for longer than maxClientWait, then a key event"""
+    req = (b"GET /vnc HTTP/1.1\r\nHost: h\r\nOrigin: http://h\r\nSec-WebSocket-Key: dGhlIHNhbXBsZSBub25jZQ==\r\n"
+           b"Sec-WebSocket-Version: 13\r\nSec-WebSocket-Protocol: binary\r\n\r\n")
+    stream = b"RFB 003.008\n" + bytes([1, 1]) + struct.pack(">BBHI", 4, 1, 0, 0x61)
+    lone = {"ping": mk_frame(9, b"hi", mask=b"\5\6\7\x08"), "pong": mk_frame(10, b"", mask=b"\5\6\7\x08"),
+            "empty": mk_frame(2, b"", mask=b"\5\6\7\x08")}[kind]
+    key2 = mk_frame(2, struct.pack(">BBHI", 4, 0, 0, 0x61), mask=b"\1\2\3\4")
+    return "\n".join(["conn 1 ws " + req.hex(), "seg 1 " + mk_frame(2, stream, mask=b"\1\2\3\4").hex(), "pump 1",
+                      "seg 1 " + lone.hex(), "pump 1", "seg 1 " + key2.hex(), "pump 1", "close 1"]) + "\n"
+
+
+def oracle_lone_control(impl):
+    pumps = [dict(x.split("=", 1) for x in l.split()[1:]) for l in impl if l.startswith("pump ")]
+    if len(pumps) != 3:
+        return "missing observations"
+    if pumps[0]["alive"] != "1" or pumps[0]["ev"] != "k1:97":
+        return "session did not start"
+    if pumps[1]["alive"] != "1":
+        return "connection closed after a control/empty frame that was followed by %d ms of silence" % 100
+    if pumps[2]["alive"] != "1" or pumps[2]["ev"] != "k0:97":
+        return "key event after the control/empty frame not delivered"
+    return None
+
+
 def oracle_e2e(script, impl, meta):
     ops = script.splitlines()
     if len(impl) != len(ops):
@@ -767,6 +815,15 @@ def run(ctx):
     rng = ctx.rng
     quick = ctx.tier == "quick"
     fails, samples = [], []
+    n_exact = [0]
+
+    def add_exact(f):
+        n_exact[0] += 1
+        if n_exact[0] <= 4:
+            fails.append(f)
+
+    def n_counter():
+        return sum(1 for f in fails if f["kind"] in ("oracle", "crash"))
     dist = {"kinds": {}, "payload_len_class": {}, "sched_style": {}, "ends": {}, "states_seen": {},
             "read_requests": 0, "decode_calls": 0, "eagain_reads": 0, "e2e": {}, "func_ops": {}}
     evals, nontrivial = 0, set()
@@ -821,9 +878,9 @@ def run(ctx):
                 a, b = (obs[di] if di < len(obs) else ""), (mobs[di] if di < len(mobs) else "")
                 ra, rb = a.split(" ; "), b.split(" ; ")
                 j = common.first_diff(ra, rb)
-                fails.append({"kind": "exact", "what": "ws.decoder (%s)" % k, "script": c["script"],
-                              "impl": ra[max(0, (j or 0) - 1):(j or 0) + 2], "model": rb[max(0, (j or 0) - 1):(j or 0) + 2],
-                              "call": j})
+                add_exact({"kind": "exact", "what": "ws.decoder (%s)" % k, "script": c["script"],
+                           "impl": ra[max(0, (j or 0) - 1):(j or 0) + 2], "model": rb[max(0, (j or 0) - 1):(j or 0) + 2],
+                           "call": j})
             recs = line.split(" ; ") if line else []
             dist["decode_calls"] += len(recs)
             for r in recs:
@@ -844,7 +901,7 @@ def run(ctx):
                 nontrivial.add((c["wire"], tuple(c["sched"]), tuple(c["lens"])))
             if len(samples) < 4 and k.startswith(("valid", "strict")) and len(c["wire"]) < 200:
                 samples.append({"script": c["script"], "impl": [x[:600] for x in obs]})
-        if len(fails) >= 12:
+        if n_counter() >= 8:
             break
 
     # ---- function-level ops (encoder, chunked write, base64, sha1) and handshakes
@@ -872,7 +929,7 @@ def run(ctx):
             if o:
                 fails.append({"kind": "oracle", "what": "C09 %s oracle" % k, "detail": o, "script": [op[:4000]], "impl": [ob[:4000]]})
             elif model and i < len(model) and model[i] != ob:
-                fails.append({"kind": "exact", "what": "ws.%s" % k, "script": [op[:4000]], "impl": [ob[:2000]], "model": [model[i][:2000]]})
+                add_exact({"kind": "exact", "what": "ws.%s" % k, "script": [op[:4000]], "impl": [ob[:2000]], "model": [model[i][:2000]]})
             nontrivial.add(op[:200])
 
     # ---- end to end: same RFB script over TCP and over WebSocket
@@ -899,10 +956,21 @@ def run(ctx):
         if len(samples) < 6:
             samples.append({"script": [l[:200] for l in script.splitlines()][:12], "impl": [x[:200] for x in impl][:12]})
 
+    # ---- a lone control frame / empty frame followed by silence (finding, see docs/C09.md)
+    for kind in ("ping", "pong", "empty"):
+        script = lone_control_script(kind)
+        rc, impl, err = ctx.run_lines(h, script, timeout=120)
+        evals += 1
+        o = "harness exit %d" % rc if rc != 0 else oracle_lone_control(impl)
+        dist["e2e"]["lone-" + kind] = "fails" if o else "ok"
+        if o:
+            fails.append({"kind": "oracle", "what": "C09 end-to-end oracle (lone %s frame)" % kind, "detail": o,
+                          "script": script.splitlines(), "impl": [x[:300] for x in impl], "finding": LONE_CONTROL})
+
     return {
         "evaluations": evals, "distinct_nontrivial": len(nontrivial),
         "rule": "decoder case = (wire bytes, read schedule, caller lengths) with >= 2 decode calls; function op = distinct input; e2e = distinct RFB script x framing x segmentation",
-        "samples": samples, "distribution": dist, "failures": fails[:12],
+        "samples": samples, "distribution": dist, "failures": fails[:16],
         "exhaustive": True,
         "partial": ["base64 (text-frame) transparency is proved relative to the assumed law of base64.c (decode . encode = id, chunk additivity), which is compared with the C routines, not proved",
                     "wss (TLS) transport not modelled", "timing (a lone control frame followed by silence lets rfbReadExact time out) is outside the decoder model"],
